@@ -240,6 +240,7 @@ def gen_pairs(a):
 
 
 def explore(ctx):
+    ctx.use_thorough_bounds('thorough bounds take about ten seconds')
     k = ctx.pick(12, 16)
     kp = ctx.pick(4, 6)
     _K[0] = k
